@@ -110,17 +110,17 @@ static void run_case(const Case& c, const std::vector<K>& keys, const std::vecto
    if (c.own) {
       OwnProbe<K> t;
       std::vector<K*> got;
+      std::map<K*, size_t> index_of;     // element -> first step that returned it
       auto pk = [&](const rb_tree::node<K>& n) { return show(n.data); };
       for (size_t i = 0; i < keys.size(); ++i) {
          long before = t.size();
          K* p = t.insert(keys[i], cmp);
          got.push_back(p);
-         size_t j = 0;
-         while (got[j] != p) ++j;
+         size_t j = index_of.emplace(p, i).first->second;
          if (i) ret += ',';
          ret += std::to_string(j);
          fresh += (t.size() == before + 1) ? '1' : '0';
-         pok = pok and parents_ok(t.top(), (rb_tree::node<K>*) nullptr);
+         if (keys.size() <= 4096 or (i & 1023) == 0) pok = pok and parents_ok(t.top(), (rb_tree::node<K>*) nullptr);   // whole-tree walks: after every step on small runs, every 1024th on long ones
          if (c.steps) { if (i) steps += '|'; shape(t.top(), pk, steps); }
       }
       for (size_t i = 0; i < keys.size(); ++i) {
@@ -139,6 +139,7 @@ static void run_case(const Case& c, const std::vector<K>& keys, const std::vecto
       ChainProbe<K> t;
       std::vector<std::unique_ptr<CNode<K>>> store;
       std::vector<CNode<K>*> first;      // first node inserted with an equal key
+      std::map<K, CNode<K>*> first_of;
       auto ncmp = [&](const CNode<K>& a, const CNode<K>& b) { return cmp(a.key, b.key); };
       auto kcmp = [&](const CNode<K>& a, const K& b) { return cmp(a.key, b); };
       auto pk = [&](const CNode<K>& n) { return show(n.key); };
@@ -147,16 +148,15 @@ static void run_case(const Case& c, const std::vector<K>& keys, const std::vecto
          store.back()->key = keys[i];
          store.back()->serial = int(i);
          if (c.preblack) store.back()->color = rb_tree::Color::Black;
-         long before = count_nodes(t.top());
+         const bool walk = keys.size() <= 4096;                  // whole-tree walks after every step on small runs only
+         long before = walk ? count_nodes(t.top()) : (t.find(keys[i], kcmp) == nullptr ? 0 : 1);
          CNode<K>* p = t.insert(store.back().get(), ncmp);
          if (i) ret += ',';
          ret += std::to_string(p->serial);
-         fresh += (count_nodes(t.top()) == before + 1) ? '1' : '0';
-         pok = pok and parents_ok(t.top(), (CNode<K>*) nullptr);
+         fresh += walk ? ((count_nodes(t.top()) == before + 1) ? '1' : '0') : (before == 0 ? '1' : '0');
+         if (walk or (i & 1023) == 0) pok = pok and parents_ok(t.top(), (CNode<K>*) nullptr);
          if (c.steps) { if (i) steps += '|'; shape(t.top(), pk, steps); }
-         size_t j = 0;
-         while (cmp(store[j]->key, keys[i]) != 0) ++j;
-         first.push_back(store[j].get());
+         first.push_back(first_of.emplace(keys[i], store.back().get()).first->second);
       }
       for (size_t i = 0; i < keys.size(); ++i) {
          CNode<K>* p = t.find(keys[i], kcmp);
@@ -164,8 +164,21 @@ static void run_case(const Case& c, const std::vector<K>& keys, const std::vecto
       }
       for (auto& k : probes_absent)
          absent += t.find(k, kcmp) != nullptr ? '1' : '0';
-      shape(t.top(), pk, final_shape);
       size = t.size();
+      if (c.preblack or keys.size() % 3 == 0) {
+         // registering a node object that is ALREADY linked in this chain (an idempotent re-registration): the tree is left as it is
+         std::string before; shape(t.top(), pk, before);
+         long relinked = 0;
+         for (size_t i = 0; i < store.size(); i += 1 + store.size() / 7) {
+            if (first[i] != store[i].get()) continue;           // only objects that are in the tree
+            CNode<K>* p = t.insert(store[i].get(), ncmp);
+            if (p != store[i].get()) ++relinked;
+         }
+         std::string after; shape(t.top(), pk, after);
+         if (before != after or relinked) { final_shape = "CHANGED-BY-RE-REGISTRATION:" + after; }
+         pok = pok and parents_ok(t.top(), (CNode<K>*) nullptr);
+      }
+      if (final_shape.empty()) shape(t.top(), pk, final_shape);
       nodes = count_nodes(t.top());
    }
    std::printf("shape=%s size=%ld nodes=%ld parents=%s ret=%s fresh=%s found=%s probe=%s",
